@@ -1,7 +1,7 @@
 """C18 — non-negative filters never overshoot and preserve order (clauses)."""
 import re
 
-from ..engines import deps, mono, simd_rules
+from ..engines import deps, mono, roundbudget, simd_rules
 from ..engines.mono import INF
 from ..progs import programs
 
@@ -34,3 +34,4 @@ def run(rep, tier):
         rep.call(kernel_sign, rep, prog, "C18.kernel-sign")
         rep.call(simd_rules.zero_extend, rep, prog, "C18.zero-extend")
         rep.call(simd_rules.conv_saturate, rep, prog, "C18.saturate")
+        rep.call(roundbudget.budget, rep, prog, "C18.round-budget", {"x86": 110, "arm": 60, "wasm": 55}.get(cfg, 40))
